@@ -8,7 +8,7 @@ import numpy
 from .. import tree  # noqa: F401
 import numpoly
 
-from ..alpha import alpha, alpha_raw, raw_view, KEY_OFFSET
+from ..alpha import alpha, alpha_raw, raw_view, KEY_OFFSET, build_checked, spec, model_of
 from ..model import V, ONE, exact_array
 
 ID = "C20"
@@ -26,7 +26,8 @@ META = {
             "(p + shifted copy: equal exponents merge, distinct ones stay distinct), multiplication by q0, derivative, "
             "evaluation at 1 (and at 2 for e<=60), str; all pairs (a,b) with a+b<=600 for (c*q0**a)*(d*q0**b) (one packed call "
             "per a); two- and three-indeterminate exponent tuples on a boundary grid through multiply, power, derivative, call, "
-            "pickle; savetxt/loadtxt ('correct or error', StringIO and files written/read with latin1 / utf-8 / default encodings and binary streams) for every single exponent < 300 in three positions and every exponent pair (a,b) < 110; exponents beyond 55000 up to 2**31: correct or error. "
+            "pickle; every two-term polynomial 2*x**t1+3*x**t2 over all pairs of tuples of the 14x14 two-name grid times a constant, "
+            "times q0+q1, plus q0+q1, squared, differentiated; savetxt/loadtxt ('correct or error', StringIO and files written/read with latin1 / utf-8 / default encodings and binary streams) for every single exponent < 300 in three positions and every exponent pair (a,b) < 110; exponents beyond 55000 up to 2**31: correct or error. "
             "distinct = exponent value or tuple x operation.",
     "bounds": lambda tier: {"single_exponents": LIMIT, "coverage_of_single_exponents": "all" if tier == "thorough" else "core + 1/8 slice",
                             "pair_sum": 600, "grid": GRID, "beyond": BIG},
@@ -64,6 +65,8 @@ def cases(tier, seed):
         out.append({"k": "grid2", "i0": i0})
     for i0 in range(0, 7 ** 3, 49):
         out.append({"k": "grid3", "i0": i0})
+    for i0 in range(0, 14 ** 2, 10):
+        out.append({"k": "sums2", "i0": i0, "i1": min(14 ** 2, i0 + 10)})
     out.append({"k": "text"})
     for a0 in range(0, 110, 5):
         out.append({"k": "textpairs", "a0": a0, "a1": a0 + 5})
@@ -288,6 +291,32 @@ def run_grid(case, R, k):
     R.sample({"grid": grid, "indeterminates": k})
 
 
+def run_sums(case, R):
+    """two-term polynomials 2*x**t1 + 3*x**t2 for every pair of exponent tuples of the 2-name grid (large exponents in either
+    column, in either term), times a constant, themselves, a small two-term factor and a derivative"""
+    names = ("q0", "q1")
+    grid = [0, 1, 33, 58, 59, 68, 69, 127, 128, 197, 255, 256, 2047, 2048]
+    tuples = list(itertools.product(grid, repeat=2))
+    small = build_checked(spec(names, (), [((1, 0), 1), ((0, 1), 1)]))
+    msmall = V.var("q0") + V.var("q1")
+    tags = ["sums2"]
+    for i in range(case["i0"], case["i1"]):
+        t1 = tuples[i]
+        R.state(("s", t1))
+        for t2 in tuples[i + 1:]:
+            sp = spec(names, (), [(t1, 2), (t2, 3)])
+            p, m = build_checked(sp), model_of(sp)
+            lab = f"2*x^{t1}+3*x^{t2}"
+            sub = {"k": "sums2", "i0": i, "i1": i + 1}
+            expect(R, "multiply by constant", lab, lambda: p * 2, eq_model(m * V.const(2)), tags, sub)
+            expect(R, "multiply by q0+q1", lab, lambda: p * small, eq_model(m * msmall), tags, sub)
+            expect(R, "add q0+q1", lab, lambda: p + small, eq_model(m + msmall), tags, sub)
+            if (t1[0] + t2[1]) % 3 == 0:
+                expect(R, "square", lab, lambda: p * p, eq_model(m * m), tags, sub)
+                expect(R, "derivative q1", lab, lambda: numpoly.derivative(p, "q1"), eq_model(m.diff("q1")), tags, sub)
+    R.sample({"sums2": [case["i0"], case["i1"]], "grid": grid})
+
+
 def run_text(case, R):
     """savetxt/loadtxt: correct or error, never a different monomial"""
     names = ("q0", "q1")
@@ -385,6 +414,8 @@ def run_case(case, R):
         run_grid(case, R, 2)
     elif k == "grid3":
         run_grid(case, R, 3)
+    elif k == "sums2":
+        run_sums(case, R)
     elif k == "text":
         run_text(case, R)
     elif k == "textpairs":
